@@ -187,6 +187,15 @@ func nontrivial(ops []refmodel.Op) bool {
 	return false
 }
 
+type longBlock struct{ length, ords int }
+
+func longBlocks(thorough bool) []longBlock {
+	if thorough {
+		return []longBlock{{13, 2}, {14, 2}, {15, 2}, {16, 2}, {17, 2}, {13, 3}, {24, 2}}
+	}
+	return []longBlock{{13, 2}, {14, 2}, {16, 2}}
+}
+
 func Run(ctx *core.Ctx) int {
 	ctx.Level = "exploration"
 	if ctx.Replay != "" {
@@ -217,6 +226,33 @@ func Run(ctx *core.Ctx) int {
 				}
 			}
 		}
+		// long blocks: more operations in one block than the threshold (12) below which Go's sort routines fall back to
+		// insertion sort, all on one key with a distinct value each, every ordinal vector over a small ordinal set.
+		// "Stable ordinal order" must hold for every block length, and only the ordinal pattern matters here.
+		for _, lb := range longBlocks(ctx.Thorough()) {
+			for _, c := range []refmodel.Combo{{Policy: "set", VT: "string"}, {Policy: "append", VT: "bytes"}, {Policy: "set_if_not_exists", VT: "string"}, {Policy: "add", VT: "int64"}} {
+				n := 1
+				for i := 0; i < lb.length; i++ {
+					n *= lb.ords
+				}
+				for code := 0; code < n; code++ {
+					seq := make([]refmodel.Op, lb.length)
+					x := code
+					for i := range seq {
+						v := fmt.Sprintf("v%02d", i)
+						if c.VT == "int64" {
+							v = fmt.Sprint(1 << uint(i))
+						}
+						seq[i] = refmodel.Op{T: "w", K: "a", V: v, O: uint64(x % lb.ords)}
+						x /= lb.ords
+					}
+					seqs++
+					if !emit(Case{Combo: c, Pre: 0, Ops: seq}) {
+						return
+					}
+				}
+			}
+		}
 	}, Eval)
 	c0 := combos[3]
 	a0 := refmodel.OpAlphabet(c0, nvals, ords)
@@ -227,7 +263,7 @@ func Run(ctx *core.Ctx) int {
 	ctx.Cov["exhaustive"] = true
 	ctx.Cov["combos"] = len(combos)
 	ctx.Cov["queries_per_case"] = len(queryKeys) * (2 + len(queryOrds)) * 2
-	ctx.Cov["rule"] = fmt.Sprintf("%d (policy,value type) combos x 3 pre-states built through the real write path x every operation sequence of length <=%d over (3 keys x %d values x ordinals {0,1,2}) + (delete_prefix of a,b,'' x ordinals); after Flush every get/has first/last/at on 4 keys x ordinals 0..3 via store.Reader and via wasm.Call.Do*, plus the delta list replayed on the pre-state. Non-trivial: >=2 writes to one key with different ordinals, or a delete_prefix hitting a key written in the block. Distinct by construction.", len(combos), maxLen, nvals)
+	ctx.Cov["rule"] = fmt.Sprintf("%d (policy,value type) combos x 3 pre-states built through the real write path x every operation sequence of length <=%d over (3 keys x %d values x ordinals {0,1,2}) + (delete_prefix of a,b,'' x ordinals); after Flush every get/has first/last/at on 4 keys x ordinals 0..3 via store.Reader and via wasm.Call.Do*, plus the delta list replayed on the pre-state. Non-trivial: >=2 writes to one key with different ordinals, or a delete_prefix hitting a key written in the block. Distinct by construction. Plus long blocks: %v (length, number of ordinals) operations on one key with a distinct value each, every ordinal vector, policies set/append/set_if_not_exists/add.", len(combos), maxLen, nvals, longBlocks(ctx.Thorough()))
 	ctx.Assume = []string{
 		"numeric alphabets are dyadic rationals of small magnitude (exact float/decimal sums, no int64 overflow, no 34-digit truncation)",
 		"values compared typed: numbers as numbers, set_sum after stripping the set:/sum: tag, bytes bytewise",
